@@ -6,12 +6,16 @@
 //!         [1, opcode, a1, a2, a3]                                    guest-memory level op
 //!         [2, ri]                                                    bitmap reset
 //!         [3, ri, off, len]                                          reset_addr_range
-//! obs:   per step  [ok,count]  then per region  [dirty bit per page, +2 margin]  [changed-byte runs o,n,...]
+//! obs:   per step  [ok,count,late]  then per region  [dirty bit per page, +2 margin]  [changed-byte runs o,n,...]
 //!
 //!   accessor opcode 6 (descriptor read) a4: 0 a file holding a3 bytes, 1 a write-only descriptor (EBADF, nothing
 //!         stored), 2 a read that FAILS PART-WAY: the source is a datagram of a1 bytes and the host pages of the
 //!         region from region offset a3 (a multiple of 4096) on are mprotect()ed to PROT_NONE through the raw host
 //!         pointer for the duration of the call: the kernel stores the bytes in front of a3, then returns EFAULT.
+//!
+//!   late (bitmap flavour 5 only, else 0): number of pages holding a byte that changed AFTER the last mark_dirty call
+//!         covering the page.  Flavour 5 is a third-party `Bitmap` (struct Probe) wrapping AtomicBitmap; on every
+//!         mark_dirty call it notes which bytes of the covered pages already differ from X.
 //!
 //! Observation is independent of the accessors under test: before every step all region memory is
 //! filled (raw pointer) with the byte X, everything the step writes is the byte Y != X, and afterwards
@@ -21,7 +25,8 @@ use crate::{Rng, Suite, Tier, Tok};
 use std::num::NonZeroUsize;
 use std::sync::atomic::{AtomicUsize, Ordering};
 use std::sync::Arc;
-use vm_memory::bitmap::{ArcSlice, AtomicBitmap, Bitmap, BitmapSlice, WithBitmapSlice};
+use std::sync::Mutex;
+use vm_memory::bitmap::{ArcSlice, AtomicBitmap, Bitmap, BitmapSlice, RefSlice, WithBitmapSlice};
 use vm_memory::mmap::MmapRegionBuilder;
 use vm_memory::{
     Bytes, GuestAddress, GuestMemory, GuestMemoryMmap, GuestMemoryRegion, GuestRegionMmap, VolatileMemory,
@@ -33,6 +38,8 @@ pub const SUITES: &[Suite] = &[Suite { name: "C05", gen, exec }, Suite { name: "
 /// raw host base / mapping length of the region the current accessor step works on (for opcode 6, a4 = 2)
 static REGION_BASE: AtomicUsize = AtomicUsize::new(0);
 static REGION_MAPLEN: AtomicUsize = AtomicUsize::new(0);
+/// region offset from which the host pages of the current region are inaccessible (opcode 6, a4 = 2), else MAX
+static NOACCESS_FROM: AtomicUsize = AtomicUsize::new(usize::MAX);
 
 const X: u8 = 0x11;
 const Y: u8 = 0xee;
@@ -57,6 +64,93 @@ impl Bitmap for ArcBm {
 trait Flavour: Bitmap + Sized {
     fn make(size: usize, ps: usize) -> Self;
     fn inner(&self) -> Option<&AtomicBitmap>;
+    /// tells the bitmap where its region's memory is (probing flavour only)
+    fn attach(&self, _base: usize) {}
+    /// pages holding a changed byte not covered by a LATER mark_dirty call; forgets the notes
+    fn take_late(&self) -> u64 {
+        0
+    }
+}
+
+/// flavour 5: a third-party Bitmap that probes the ORDER of "store the bytes" and "mark_dirty".
+/// Every mark_dirty call (forwarded to an AtomicBitmap) notes which bytes of the pages it covers
+/// have already changed (differ from the fill byte X); a changed byte that no such note covers was
+/// stored after the last mark of its page - a reset falling in between would lose it.
+pub struct Probe {
+    inner: AtomicBitmap,
+    ps: usize,
+    size: usize,
+    base: AtomicUsize,
+    safe: Mutex<Vec<bool>>,
+}
+impl<'a> WithBitmapSlice<'a> for Probe {
+    type S = RefSlice<'a, Probe>;
+}
+impl Bitmap for Probe {
+    fn mark_dirty(&self, offset: usize, len: usize) {
+        self.inner.set_addr_range(offset, len);
+        let base = self.base.load(Ordering::SeqCst);
+        if len == 0 || base == 0 {
+            return;
+        }
+        let first = offset / self.ps;
+        let last = offset.saturating_add(len - 1) / self.ps;
+        let np = self.size.div_ceil(self.ps);
+        let limit = std::cmp::min(self.size, NOACCESS_FROM.load(Ordering::SeqCst));
+        let mut safe = self.safe.lock().unwrap();
+        let mut p = first;
+        while p <= last && p < np {
+            let lo = p * self.ps;
+            let hi = std::cmp::min(lo.saturating_add(self.ps), limit);
+            for b in lo..hi.max(lo) {
+                // SAFETY: b < size, accessible (below the inaccessible part, if any)
+                if unsafe { std::ptr::read_volatile((base + b) as *const u8) } != X {
+                    safe[b] = true;
+                }
+            }
+            p += 1;
+        }
+    }
+    fn dirty_at(&self, offset: usize) -> bool {
+        self.inner.is_addr_set(offset)
+    }
+    fn slice_at(&self, offset: usize) -> RefSlice<'_, Probe> {
+        RefSlice::new(self, offset)
+    }
+}
+impl Flavour for Probe {
+    fn make(size: usize, ps: usize) -> Self {
+        Probe {
+            inner: AtomicBitmap::new(size, NonZeroUsize::new(ps).unwrap()),
+            ps,
+            size,
+            base: AtomicUsize::new(0),
+            safe: Mutex::new(vec![false; size]),
+        }
+    }
+    fn inner(&self) -> Option<&AtomicBitmap> {
+        Some(&self.inner)
+    }
+    fn attach(&self, base: usize) {
+        self.base.store(base, Ordering::SeqCst);
+    }
+    fn take_late(&self) -> u64 {
+        let base = self.base.load(Ordering::SeqCst);
+        let mut safe = self.safe.lock().unwrap();
+        let np = self.size.div_ceil(self.ps);
+        let mut late = 0;
+        for p in 0..np {
+            let lo = p * self.ps;
+            let hi = std::cmp::min(lo.saturating_add(self.ps), self.size);
+            if (lo..hi).any(|b| unsafe { std::ptr::read_volatile((base + b) as *const u8) } != X && !safe[b]) {
+                late += 1;
+            }
+        }
+        for x in safe.iter_mut() {
+            *x = false;
+        }
+        late
+    }
 }
 impl Flavour for AtomicBitmap {
     fn make(size: usize, ps: usize) -> Self {
@@ -138,6 +232,7 @@ fn exec(case: &[Tok]) -> Vec<Tok> {
         2 => run::<OptSome>(case, nreg),
         3 => run::<ArcBm>(case, nreg),
         4 => run::<OptNone>(case, nreg),
+        5 => run::<Probe>(case, nreg),
         _ => run::<Unit>(case, nreg),
     }
 }
@@ -172,6 +267,9 @@ fn run<B: Flavour + 'static>(case: &[Tok], nreg: usize) -> Vec<Tok> {
         Err(_) => return bad(),
     };
     let regs: Vec<&GuestRegionMmap<B>> = gm.iter().collect();
+    for r in &regs {
+        r.bitmap().attach(r.as_ptr() as usize);
+    }
     let mut out = Vec::new();
     for st in &case[2 + nreg..] {
         let s: Vec<u64> = st.l().iter().map(|x| *x as u64).collect();
@@ -208,7 +306,9 @@ fn run<B: Flavour + 'static>(case: &[Tok], nreg: usize) -> Vec<Tok> {
             }
             _ => (false, 0),
         };
-        out.push(Tok::L(vec![ok as u128, count as u128]));
+        // the step has returned: every changed byte must have been noted by a mark of its page
+        let late: u64 = if s[0] <= 1 { regs.iter().map(|r| r.bitmap().take_late()).sum() } else { 0 };
+        out.push(Tok::L(vec![ok as u128, count as u128, late as u128]));
         for (r, g) in regs.iter().zip(&geos) {
             let np = g.size.div_ceil(g.ps);
             let bits: Vec<u128> = (0..np + 2).map(|p| r.bitmap().dirty_at(p.saturating_mul(g.ps)) as u128).collect();
@@ -396,8 +496,10 @@ fn slice_op<S: BitmapSlice>(s: &VolatileSlice<S>, op: &[u64]) -> (bool, u64) {
                 let guard = a3 < maplen;
                 if guard {
                     assert_eq!(unsafe { libc::mprotect((base + a3) as *mut libc::c_void, maplen - a3, libc::PROT_NONE) }, 0);
+                    NOACCESS_FROM.store(a3, Ordering::SeqCst);
                 }
                 let r = crate::util::catch(|| s.read_volatile_from(a2, &mut f, a1));
+                NOACCESS_FROM.store(usize::MAX, Ordering::SeqCst);
                 if guard {
                     assert_eq!(
                         unsafe { libc::mprotect((base + a3) as *mut libc::c_void, maplen - a3, libc::PROT_READ | libc::PROT_WRITE) },
@@ -517,7 +619,7 @@ fn pick_near(rng: &mut Rng, pivots: &[u64]) -> u64 {
 fn gen_fault(rng: &mut Rng, tier: Tier, emit: &mut dyn FnMut(Vec<Tok>)) {
     let ncases = if tier == Tier::Quick { 1500 } else { 30_000 };
     for _ in 0..ncases {
-        let flavour = *rng.pick(&[1u64, 1, 1, 2, 3, 4, 0]);
+        let flavour = *rng.pick(&[1u64, 1, 5, 5, 2, 3, 4, 0]);
         let ps = *rng.pick(&[64u64, 100, 512, 1024, 4096, 4096, 5000, 8192]);
         let size = *rng.pick(&[4097u64, 4200, 8192, 8193, 12288, 16000, 20000]) + rng.below(3);
         let start = *rng.pick(&[0u64, 0x1000, 0x7fff_f000]);
@@ -578,7 +680,7 @@ fn gen(rng: &mut Rng, tier: Tier, emit: &mut dyn FnMut(Vec<Tok>)) {
     gen_fault(rng, tier, emit);
     let ncases = if tier == Tier::Quick { 8000 } else { 120_000 };
     for _ in 0..ncases {
-        let flavour = *rng.pick(&[1u64, 1, 1, 2, 3, 4, 0]);
+        let flavour = *rng.pick(&[1u64, 1, 5, 5, 2, 3, 4, 0]);
         let nreg = 1 + rng.below(3) as usize;
         let mut geos: Vec<(u64, u64, u64)> = Vec::new();
         let mut next = *rng.pick(&[0u64, 0x1000, 0x7fff_f000]);
